@@ -165,7 +165,15 @@ def _definition(case, ctx, g):
     Xb, yb = X[idx], y[..., idx]
     m.train()
     lik.train()
-    obj = getattr(gpytorch.mlls, case["objective"])(lik, m, num_data=N, beta=case["beta"], combine_terms=case["combine_terms"])
+    if case["seed"] % 3 == 0:
+        # KL annealing / a data set that grew: beta and num_data are assigned on the existing objective object
+        obj = getattr(gpytorch.mlls, case["objective"])(lik, m, num_data=N + 7, beta=case["beta"] * 0.25 + 0.05, combine_terms=case["combine_terms"])
+        with torch.no_grad():
+            obj(m(X[:3]), y[..., :3], **({"noise": stored[:3]} if case["lik"] == "fixed" else {}))
+        obj.beta = case["beta"]
+        obj.num_data = N
+    else:
+        obj = getattr(gpytorch.mlls, case["objective"])(lik, m, num_data=N, beta=case["beta"], combine_terms=case["combine_terms"])
     n_enum = len(list(obj.named_priors()))
     ctx.expect("priors_enumerated", n_enum == len(ref_priors), f"objective enumerates {n_enum} priors, {len(ref_priors)} registered")
     _ST["cap"] = {}
